@@ -29,8 +29,9 @@ type gen struct {
 	rng    *core.Rng
 	tier   string
 	cases  []Case
-	seen   map[string]bool
-	budget map[string]int // per (family) soft cap used by the samplers
+	seen    map[string]bool
+	dir     string // where rebuilt archives (content-level corruption) are written
+	fileSeq int
 }
 
 // boundary values for a field of w bytes
@@ -306,9 +307,12 @@ func init() {
 		if len(c.Args) < 2 {
 			return errors.New("usage: c11gen bases.json manifest.jsonl")
 		}
-		only, sweep := "", false
+		only, sweep, dir := "", false, ""
 		for i := 2; i < len(c.Args); i++ {
 			switch c.Args[i] {
+			case "-dir":
+				i++
+				dir = c.Args[i]
 			case "-only":
 				i++
 				only = c.Args[i]
@@ -324,7 +328,10 @@ func init() {
 		if err := json.Unmarshal(raw, &bases); err != nil {
 			return err
 		}
-		g := &gen{rng: &core.Rng{S: c.Seed*0x9e3779b97f4a7c15 + 11}, tier: c.Tier, seen: map[string]bool{}}
+		g := &gen{rng: &core.Rng{S: c.Seed*0x9e3779b97f4a7c15 + 11}, tier: c.Tier, seen: map[string]bool{}, dir: dir}
+		if dir != "" {
+			os.MkdirAll(dir, 0o755)
+		}
 		for _, b := range bases {
 			if only != "" && b.Family != only && b.SigType != only {
 				continue
